@@ -8,6 +8,7 @@ particular the code's own), the reported clusters partition the labels `0 .. num
 import BBProofs.Ops
 import BBProofs.Labels
 import BBProofs.RefPolicy
+import BBProofs.GenEq2
 
 namespace BB
 
@@ -225,5 +226,26 @@ example :
     simp only [ops, List.mem_cons, List.not_mem_nil, or_false] at hop
     rcases hop with rfl | rfl | rfl | rfl | rfl <;> simp [Op.WFL]
   all_goals decide +kernel
+
+
+/-! ## The same for the code itself (`_BFSubcluster.update` / `merge_subcluster`, translated on this run) -/
+
+/-- code: `update` and an accepted `merge_subcluster` concatenate the two member lists (no label is lost, duplicated or
+invented); a rejected merge leaves the member list alone -/
+theorem C01_code_member_lists (expf : Rat → Rat) (m : MergeFn) (thr : Rat) (c s : Clu) (child scent schild : PV)
+    (hc : CluOk c) (hs : CluOk s) (hlen : c.ls.length = s.ls.length) (hn : c.n + s.n < 2 ^ 53)
+    (hnew : SumOk (c.mergedSummary s)) (hold : SumOk c.summary) (hO : 1 ≤ c.n) :
+    (BBGen._BFSubcluster_update expf (bufOf c) (PV.arr .u8 (pack c.cent)) child (PV.arr .big c.ids)
+        (bufOf s) scent schild (PV.arr .big s.ids)).getD 3 PV.pynone = PV.arr .big (c.ids ++ s.ids)
+    ∧ (BBGen._BFSubcluster_merge_subcluster expf (bufOf c) (PV.arr .u8 (pack c.cent)) child (PV.arr .big c.ids)
+        (bufOf s) scent schild (PV.arr .big s.ids) (PV.flt (some thr)) (objOf expf m)).getD 4 PV.pynone
+      = PV.arr .big (if accept m (tabOf expf) thr (c.mergedSummary s) c.summary s.summary then c.ids ++ s.ids else c.ids) := by
+  constructor
+  · rw [gen_update expf c s child scent schild hc hs hlen hn]
+    simp [stateOf, Clu.update]
+  · rw [gen_merge_subcluster expf m thr c s child scent schild hc hs hlen hn hnew hold hO]
+    by_cases ha : accept m (tabOf expf) thr (c.mergedSummary s) c.summary s.summary = true
+    · simp [ha, stateOf, Clu.merge]
+    · simp [ha, stateOf]
 
 end BB
